@@ -482,7 +482,7 @@ def main(tier, replay=None):
                                 [("third", "y")], [("reset_B",)], [("drop_B",)]], modes={}, render=True), rep)
     benchmark_seed_independence(rep)
     nshards = 16 if tier == "thorough" else 8
-    total = 16 * 600 if tier == "thorough" else 320
+    total = 16 * 1500 if tier == "thorough" else 320
     for part in engine.run_shards(_shard, nshards, common.verif_seed(), tier=tier, n_cases=total // nshards):
         rep.merge(part)
     docs.cleanup()
